@@ -63,7 +63,8 @@ class UnitResult:
 def fn_for_line(meta, text_lines, ln):
     """Map an emitted line to the enclosing function (extracted or handwritten)."""
     for f in meta["functions"]:
-        if f["kind"] == "fn" and f["out_lines"][0] <= ln <= f["out_lines"][1]:
+        # (a const with a contract is emitted as `exec const .. ensures .. { .. }`: an obligation of its own)
+        if (f["kind"] == "fn" or (f["kind"] == "const" and f.get("contract"))) and f["out_lines"][0] <= ln <= f["out_lines"][1]:
             return (f["parent"] + "::" if f["parent"] else "") + f["name"], True
     # handwritten: search backwards for 'fn name'
     for k in range(min(ln, len(text_lines)) - 1, -1, -1):
@@ -140,9 +141,14 @@ def _collect(r, res, meta, tl):
         r.undecided.append("verus timeout")
         return
     bd = vunit.breakdown(res)
+    # methods of EXTERNAL types emitted through extension traits are reported by Verus under the
+    # type's own path (e.g. revm_interpreter::host::SStoreResult::is_new_zero), not under vu_<unit>
+    ext_methods = {f["parent"] + "::" + f["name"] for f in meta["functions"] if f["kind"] == "fn" and f["parent"]}
     for name, e in bd.items():
         if name.startswith("vu_"):
             r.obligations[short(name)] = e
+        elif "::".join(name.split("::")[-2:]) in ext_methods:
+            r.obligations["::".join(name.split("::")[-2:])] = e
     diags = res.get("diags", [])
     others = [d for d in diags if vunit.classify(d) == "other"]
     rlim = [d for d in diags if vunit.classify(d) == "rlimit"]
@@ -162,16 +168,16 @@ def _collect(r, res, meta, tl):
         for (ls, le, prim, label) in vunit.diag_lines(d):
             fn, extracted = fn_for_line(meta, tl, ls)
             if fn:
-                cands.append((0 if not prim else 1, fn, extracted, ls, label))
+                cands.append((0 if extracted else 1, 0 if prim else 1, fn, extracted, ls, label))
         if not cands:
             r.undecided.append("unattributed verifier error: " + d["message"])
             continue
         cands.sort()
-        fn = cands[0][1]
+        fn = cands[0][2]
         # prefer what the verifier's own per-function breakdown says failed
         r.failed.setdefault(fn, []).append({
             "message": d["message"],
-            "spans": [{"line": c[3], "label": c[4], "text": tl[c[3] - 1].strip() if c[3] - 1 < len(tl) else ""} for c in cands],
+            "spans": [{"line": c[4], "label": c[5], "text": tl[c[4] - 1].strip() if c[4] - 1 < len(tl) else ""} for c in cands],
             "rendered": d.get("rendered", "")[:3000],
         })
     # verifier breakdown failures without diag (should not happen)
